@@ -137,7 +137,15 @@ def go_stage(root, pid, tier, seed, replay, work):
     except Exception:
         pass
     binp = os.path.join(work, "harness-%d" % os.getpid())
-    rc, out = sh(["go", "build", "-tags", "verif", "-o", binp, "./harness"], cwd=gdir, env=goenv(), timeout=1200)
+    build = ["go", "build", "-tags", "verif", "-o", binp, "./harness"]
+    env = goenv()
+    racelog = None
+    if pid == "C18":
+        # the concurrency property runs under the race detector; its reports go to a log file
+        build = ["go", "build", "-race", "-tags", "verif", "-o", binp, "./harness"]
+        racelog = os.path.join(work, "race-%d" % os.getpid())
+        env = dict(env, GORACE="log_path=%s exitcode=0 halt_on_error=0" % racelog)
+    rc, out = sh(build, cwd=gdir, env=env, timeout=1200)
     if rc != 0:
         return None, {"go_build_rc": rc, "go_build_out": out[-3000:]}
     resp = os.path.join(work, "result-%s-%d.json" % (pid, os.getpid()))
@@ -145,7 +153,7 @@ def go_stage(root, pid, tier, seed, replay, work):
            "-driver", os.path.join(root, "lean", ".lake", "build", "bin", "driver"), "-out", resp, "-root", root]
     if replay:
         cmd += ["-replay", replay]
-    rc, out = sh(cmd, cwd=gdir, env=goenv(), timeout=6 * 3600)
+    rc, out = sh(cmd, cwd=gdir, env=env, timeout=6 * 3600)
     res = None
     if os.path.exists(resp):
         try:
@@ -157,6 +165,28 @@ def go_stage(root, pid, tier, seed, replay, work):
         os.remove(binp)
     except OSError:
         pass
+    if racelog and res is not None:
+        import glob
+        reports = []
+        for f in sorted(glob.glob(racelog + ".*")):
+            try:
+                reports.append(open(f, errors="replace").read())
+            except OSError:
+                pass
+            os.remove(f)
+        n = sum(r.count("WARNING: DATA RACE") for r in reports)
+        res.setdefault("oracle_evaluations", {})["C18.race_reports"] = n
+        if n:
+            text = "\n".join(reports)
+            # one failure per distinct pair of top frames
+            import re as _re
+            res["oracle_failures"] = (res.get("oracle_failures") or []) + [{
+                "case": "race", "oracle": "C18", "input": "see detail", "signature": "C18:data-race",
+                "detail": "the race detector reported %d data race(s) while observers ran concurrently on a shared error value:\n%s" % (n, text[:6000])}]
+            res["n_oracle_failures"] = (res.get("n_oracle_failures") or 0) + n
+            fs = res.setdefault("failure_signatures", {}) or {}
+            fs["C18:data-race"] = n
+            res["failure_signatures"] = fs
     return res, {"harness_rc": rc, "harness_out": out[-3000:]}
 
 def load_known(root):
